@@ -940,6 +940,10 @@ def rule_pyscf(repo, f, R):
     ctor_params = init.params[1:]
     calls = [c for c in ast.walk(fn) if isinstance(c, ast.Call) and isinstance(c.func, ast.Name) and
              (c.func.id in f.local_classes or c.func.id == "GeneralizedContractionShell")]
+    if not calls:
+        R.fail("PYSCF", f.site, "shell constructor", "from_pyscf never constructs a shell: the returned basis is empty whatever the molecule holds",
+               where=f.where(), expected="one PyscfShell(...) per shell record")
+        return
     if len(calls) != 1:
         raise AnalysisError("PYSCF", f"expected one shell constructor call in from_pyscf, found {len(calls)}", f.where())
     call = calls[0]
